@@ -19,6 +19,166 @@ ERASE = ('Clone::clone', 'IsNone::unwrap', 'Option::unwrap', 'Cast::cast', 'IsNo
 NULLS = ('f64::NAN', 'f32::NAN', '::None', 'IsNone::none')
 
 
+def _fresh(env, cls):
+    """next positional name of a class of bound locals: closure parameters a0.. (b0.. one
+    closure deeper), pattern binds m0.., kept (mutable / effectful) lets v0.."""
+    key = '__n_%s__' % cls
+    n = env.get(key, 0)
+    env[key] = n + 1
+    return '%s%d' % (cls, n)
+
+
+_EFFECTFUL = re.compile(r'\.(next|next_back|nth|pop\w*|push\w*|insert|remove|replace|swap|write|uset|set|'
+                        r'sort\w*|truncate|retain|drain|extend|clear|select_nth\w*|uget_mut|get_mut|'
+                        r'fetch_\w+|borrow_mut|lock)\(|\.take\(\)')
+
+
+def _inlineable(pat, c, en):
+    """may the immutable `let pat = <c>` be replaced by its initialiser at its uses?  Not when
+    it is mutable, long, contains a closure, reads state that is assigned later, or calls a
+    method that consumes / mutates its receiver."""
+    if pat.get('mut') or len(c) > 60 or '|' in c:
+        return False
+    if re.search(r'\bself\.\w', c) and not c.endswith(')'):
+        return False
+    if _EFFECTFUL.search(c):
+        return False
+    mut_names = {en.get(l_, n_) for l_, n_ in en.get('__mutated__', ()) if n_ != 'self'}
+    return not any(re.search(r'\b%s\b' % re.escape(m_), c) for m_ in mut_names)
+
+
+def _assign_str(e, env):
+    """canonical text of an assignment; `x = x + e` / `x = e + x` / `x = x - e` are spelled as
+    the compound forms `x AddAssign e` / `x SubAssign e`"""
+    tgt = canon(e['ch'][0], env)
+    if e.get('k') == 'AssignOp':
+        return '%s %s %s' % (tgt, e['op'], canon(e['ch'][1], env))
+    r = peel(e['ch'][1])
+    if r.get('k') == 'Binary' and r['op'] in ('Add', 'Sub', 'Mul', 'Div'):
+        a, b = canon(r['ch'][0], env), canon(r['ch'][1], env)
+        if a == tgt:
+            return '%s %sAssign %s' % (tgt, r['op'], b)
+        if b == tgt and r['op'] in ('Add', 'Mul'):
+            return '%s %sAssign %s' % (tgt, r['op'], a)
+    return '%s = %s' % (tgt, canon(e['ch'][1], env))
+
+
+def _keep_name(env, local):
+    """name of a kept let: forced by the caller through env['__names__'] (role detection on
+    the HIR) or positional"""
+    forced = env.get('__names__', {})
+    if local in forced:
+        return forced[local]
+    return _fresh(env, 'v')
+
+
+def pat_canon(p, env, scr=None):
+    """Canonical pattern text; binds get positional names (or the scrutinee itself for the
+    payload of `Some(x)`, coercions being erased)."""
+    k = p.get('k')
+    if k == 'Binding':
+        if 'ch' in p and p['ch']:
+            nm = _fresh(env, 'm')
+            env[p['local']] = nm
+            return nm + ' @ ' + pat_canon(p['ch'][0], env, scr)
+        nm = scr if scr is not None else _fresh(env, 'm')
+        env[p['local']] = nm
+        return '_'
+    if k == 'Wild':
+        return '_'
+    if k == 'Tuple':
+        return '(' + ', '.join(pat_canon(c, env, '%s.%d' % (scr, i) if scr is not None else None)
+                               for i, c in enumerate(p.get('ch', []))) + ')'
+    if k == 'TupleStruct':
+        d = strip_generics(p.get('def', '?'))
+        name = '::'.join(d.split('::')[-2:])
+        ch = p.get('ch', [])
+        if d.endswith('Some') and len(ch) == 1:
+            return 'Some(' + pat_canon(ch[0], env, scr) + ')'
+        return name + '(' + ', '.join(pat_canon(c, env) for c in ch) + ')'
+    if k == 'Or':
+        return ' | '.join(sorted(pat_canon(c, env, scr) for c in p.get('ch', [])))
+    if k in ('Ref', 'Deref'):
+        return pat_canon(p['ch'][0], env, scr)
+    for c in _pat_binds(p):
+        env[c['local']] = _fresh(env, 'm')
+    return pat_src(p)
+
+
+def _arm_cond(scr, pat, env):
+    """predicate string of `scr matches pat` (Option patterns become VALID tests)."""
+    txt = pat_canon(pat, env, scr)
+    if txt == 'Some(_)':
+        return 'VALID(%s)' % scr
+    if txt in ('option::None', 'Option::None', 'v1::None', 'None') or txt.endswith('::None'):
+        return '!VALID(%s)' % scr
+    return '%s is %s' % (scr, txt)
+
+
+def _rank(c):
+    """which of a predicate and its negation spells an `if`: un-negated and `==` first"""
+    return (c.startswith('!'), bool(re.fullmatch(r'\(.* != .*\)', c)), c)
+
+
+def _opt_pat_kind(p):
+    """'some' / 'none' / 'any' for an Option-shaped component pattern, else None"""
+    k = p.get('k')
+    if k in ('Wild', 'Binding') and not p.get('ch'):
+        return 'any'
+    if k == 'TupleStruct' and strip_generics(p.get('def', '')).endswith('Some') and \
+            len(p.get('ch', [])) == 1 and p['ch'][0].get('k') in ('Wild', 'Binding'):
+        return 'some'
+    if k in ('Path', 'Struct', 'Expr') and pat_src(p).endswith('None'):
+        return 'none'
+    if k in ('Ref', 'Deref'):
+        return _opt_pat_kind(p['ch'][0])
+    return None
+
+
+def _tuple_match_rows(e, env):
+    """`match (x, y) { (Some(a), None) => .., .. }` over Option components: one row per
+    validity assignment of the tested components, each with the first arm that accepts it
+    (source first-match semantics made explicit, so arm order no longer matters)."""
+    scr = peel(e['ch'][0])
+    if scr.get('k') != 'Tup':
+        return None
+    n = len(scr['ch'])
+    arms = []
+    for a in e['arms']:
+        if 'guard' in a:
+            return None
+        p = a['pat']
+        while p.get('k') in ('Ref', 'Deref'):
+            p = p['ch'][0]
+        if p.get('k') == 'Wild':
+            kinds = ['any'] * n
+            comps = [None] * n
+        elif p.get('k') == 'Tuple' and len(p.get('ch', [])) == n:
+            kinds = [_opt_pat_kind(c) for c in p['ch']]
+            comps = p['ch']
+            if None in kinds:
+                return None
+        else:
+            return None
+        arms.append((a, kinds, comps))
+    names = [canon(c, env) for c in scr['ch']]
+    tested = [i for i in range(n) if any(k[i] != 'any' for _, k, _ in arms)]
+    import itertools
+    rows = []
+    for vals in itertools.product((True, False), repeat=len(tested)):
+        asg = dict(zip(tested, vals))
+        for a, kinds, comps in arms:
+            if all(kinds[i] == 'any' or (kinds[i] == 'some') == asg[i] for i in tested):
+                en = dict(env)
+                for i in range(n):
+                    if comps[i] is not None:
+                        pat_canon(comps[i], en, names[i])
+                conds = [('VALID(%s)' if asg[i] else '!VALID(%s)') % names[i] for i in tested]
+                rows.append((conds, a, en))
+                break
+    return rows
+
+
 def canon(e, env):
     e = peel(e)
     k = e.get('k')
@@ -33,6 +193,8 @@ def canon(e, env):
     if k == 'Lit':
         return e['v']
     if k == 'Cast':
+        return canon(e['ch'][0], env)
+    if k == 'AddrOf':
         return canon(e['ch'][0], env)
     if k == 'Block' and not e.get('stmts') and 'expr' in e:
         return canon(e['expr'], env)
@@ -77,6 +239,12 @@ def canon(e, env):
         return canon(e['ch'][0], env)
     if k == 'Tup':
         return '(' + ', '.join(canon(x, env) for x in e['ch']) + ')'
+    if k == 'Array':
+        return '[' + ', '.join(canon(x, env) for x in e['ch']) + ']'
+    if k == 'Index':
+        return '%s[%s]' % (canon(e['ch'][0], env), canon(e['ch'][1], env))
+    if k == 'Range':
+        return '%s..%s%s' % (canon(e['ch'][0], env), '=' if e['incl'] else '', canon(e['ch'][1], env))
     if k == 'Field':
         return '%s.%s' % (canon(e['ch'][0], env), e['field'])
     if k == 'Struct':
@@ -84,24 +252,108 @@ def canon(e, env):
                            ', '.join('%s: %s' % (f['field'], canon(f['e'], env))
                                      for f in e['fields']))
     if k == 'Closure':
+        # closure parameters are named by position (a0, a1 .. at depth 0, b0 .. inside)
         env2 = dict(env)
-        return '|%s| %s' % (', '.join(pat_src(p) for p in e.get('params', [])),
-                            canon(e['ch'][0], env2))
+        d = env.get('__cdepth__', 0)
+        env2['__cdepth__'] = d + 1
+        names = []
+        for p in e.get('params', []):
+            for b in _pat_binds(p):
+                nm = '%s%d' % ('abcdefgh'[min(d, 7)], len(names))
+                env2[b['local']] = nm
+                names.append(nm)
+        return '|%s| %s' % (', '.join(names), canon(e['ch'][0], env2))
     t = try_operand(e)
     if t is not None:
         return canon(t, env) + '?'
     if k == 'If':
         c = e['ch']
-        r = 'if %s { %s }' % (canon(c[0], env), canon(c[1], env))
-        if len(c) > 2:
-            r += ' else { %s }' % canon(c[2], env)
-        return r
-    if k == 'Block' and 'expr' in e and all(s['k'] == 'Let' and s['pat'].get('k') == 'Binding'
-                                           and 'init' in s for s in e.get('stmts', [])):
         en = dict(env)
-        for s in e['stmts']:
-            en[s['pat']['local']] = canon(s['init'], en)
-        return canon(e['expr'], en)
+        cs = conj(c[0], en)
+        if len(c) > 2:
+            ncs = conj(c[0], dict(env), False)
+            # one spelling for `if c {A} else {B}` and `if !c {B} else {A}`
+            if len(cs) == 1 and len(ncs) == 1 and _rank(ncs[0]) < _rank(cs[0]):
+                return 'if %s { %s } else { %s }' % (ncs[0], canon(c[2], env), canon(c[1], en))
+            return 'if %s { %s } else { %s }' % (' && '.join(cs), canon(c[1], en), canon(c[2], env))
+        return 'if %s { %s }' % (' && '.join(cs), canon(c[1], en))
+    if k == 'LetExpr':
+        en = env
+        return ' && '.join(conj(e, en))
+    if k == 'Match' and _bool_match(e) is not None:
+        c_, a_, b_ = _bool_match(e)
+        return canon({'k': 'If', 'ch': [c_, a_, b_]}, env)
+    if k == 'Match':
+        tr = _tuple_match_rows(e, env)
+        if tr is not None:
+            rows_ = sorted((' && '.join(c), canon(a['body'], en)) for c, a, en in tr)
+            if len(rows_) == 2 and rows_[1][0] == _neg(rows_[0][0]):
+                (c0, b0), (c1, b1) = sorted(rows_, key=lambda x: _rank(x[0]))
+                return 'if %s { %s } else { %s }' % (c0, b0, b1)
+            return 'match { %s }' % ', '.join('%s => %s' % x for x in rows_)
+        scr = canon(e['ch'][0], env)
+        arms = []
+        for a in e['arms']:
+            en = dict(env)
+            c = _arm_cond(scr, a['pat'], en)
+            if 'guard' in a:
+                c += ' if ' + ' && '.join(conj(a['guard'], en))
+            arms.append((c, canon(a['body'], en)))
+        if len(arms) == 2 and arms[1][0] == _neg(arms[0][0]) and not any(' if ' in c for c, _ in arms):
+            (c0, b0), (c1, b1) = sorted(arms, key=lambda x: _rank(x[0]))
+            return 'if %s { %s } else { %s }' % (c0, b0, b1)
+        return 'match { %s }' % ', '.join('%s => %s' % x for x in arms)
+    if k == 'Block':
+        en = dict(env)
+        parts = []
+        for s_ in e.get('stmts', []):
+            if s_['k'] == 'Let' and 'init' in s_:
+                init = peel(s_['init'])
+                pairs = [(s_['pat'], init)]
+                if s_['pat'].get('k') == 'Tuple' and init.get('k') == 'Tup' and \
+                        len(init['ch']) == len(s_['pat']['ch']):
+                    pairs = list(zip(s_['pat']['ch'], init['ch']))
+                for p_, v_ in pairs:
+                    c = canon(v_, en)
+                    if p_.get('k') == 'Binding' and _inlineable(p_, c, en):
+                        en[p_['local']] = c
+                    elif p_.get('k') == 'Binding':
+                        nm = _keep_name(en, p_['local'])
+                        en[p_['local']] = nm
+                        parts.append('%s := %s' % (nm, c))
+                    elif p_.get('k') == 'Tuple' and all(q.get('k') in ('Binding', 'Wild') for q in p_['ch']):
+                        if _inlineable({'mut': any(q.get('mut') for q in p_['ch'])}, c, en) and \
+                                re.fullmatch(r'[\w.]+', c):
+                            nm = c
+                        else:
+                            nm = _fresh(en, 'v')
+                            parts.append('%s := %s' % (nm, c))
+                        for i_, q in enumerate(p_['ch']):
+                            if q.get('k') == 'Binding':
+                                en[q['local']] = en.get('__names__', {}).get(q['local'], '%s.%d' % (nm, i_))
+                    else:
+                        parts.append('let %s = %s' % (pat_canon(p_, en), c))
+            elif s_['k'] == 'Let':
+                for b_ in _pat_binds(s_['pat']):
+                    en[b_['local']] = _keep_name(en, b_['local'])
+            elif s_['k'] in ('Semi', 'Expr'):
+                parts.append(canon(s_['e'], en))
+        if 'expr' in e:
+            parts.append(canon(e['expr'], en))
+        return '; '.join(parts) if len(parts) != 1 or 'expr' in e else parts[0] + ';'
+    if k in ('Assign', 'AssignOp'):
+        return _assign_str(e, env)
+    if k == 'Ret':
+        return 'return ' + ' '.join(canon(x, env) for x in e.get('ch', []))
+    if k in ('For',):
+        en = dict(env)
+        pt = pat_canon(e['pat'], en)
+        return 'for %s in %s { %s }' % (', '.join(en[b['local']] for b in _pat_binds(e['pat'])) or pt,
+                                        canon(e['ch'][0], env), canon(e['ch'][1], en))
+    if k == 'While':
+        return 'while %s { %s }' % (canon(e['ch'][0], env), canon(e['ch'][1], env))
+    if k == 'Loop':
+        return 'loop { %s }' % canon(e['ch'][0], env)
     return src(e)
 
 
@@ -141,8 +393,22 @@ def _matches_macro(e):
         if b.get('k') != 'Lit' or b.get('v') not in ('true', 'false') or 'guard' in a:
             return None
         if b['v'] == 'true':
-            tr.append(pat_src(a['pat']))
+            tr.append(a['pat'])
     return (e['ch'][0], tr) if tr else None
+
+
+def _bool_match(e):
+    """`match c { true => A, false => B }` (or with `_`) -> (c, A, B)"""
+    if e.get('k') != 'Match' or try_operand(e) is not None or len(e.get('arms', [])) != 2:
+        return None
+    if any('guard' in a for a in e['arms']):
+        return None
+    lits = [pat_src(a['pat']) for a in e['arms']]
+    if lits[0] == 'true' and lits[1] in ('false', '_'):
+        return e['ch'][0], e['arms'][0]['body'], e['arms'][1]['body']
+    if lits[0] == 'false' and lits[1] in ('true', '_'):
+        return e['ch'][0], e['arms'][1]['body'], e['arms'][0]['body']
+    return None
 
 
 def conj(e, env, positive=True):
@@ -156,37 +422,32 @@ def conj(e, env, positive=True):
         return conj(e['ch'][0], env, not positive)
     mm = _matches_macro(e)
     if mm is not None:
-        p = '%s is %s' % (canon(mm[0], env), ' | '.join(mm[1]))
-        return [p if positive else '!' + p]
+        scr = canon(mm[0], env)
+        if len(mm[1]) == 1:
+            p = _arm_cond(scr, mm[1][0], dict(env))
+        else:
+            p = '%s is %s' % (scr, ' | '.join(sorted(pat_canon(q, dict(env), scr) for q in mm[1])))
+        return [p if positive else _neg(p)]
     if e.get('k') == 'LetExpr':
-        pat = e['pat']
-        init = canon(e['ch'][0], env)
-        if pat.get('k') == 'TupleStruct' and strip_generics(pat.get('def', '')).endswith('Some') \
-                and len(pat.get('ch', [])) == 1 and pat['ch'][0].get('k') in ('Binding', 'Wild', 'Tuple'):
-            p = 'VALID(%s)' % init
-            bs = _pat_binds(pat)
-            if len(bs) == 1:
-                env[bs[0]['local']] = init
-            else:
-                for b in bs:
-                    env[b['local']] = b['name']
-            return [p if positive else '!' + p]
-        p = 'let %s = %s' % (pat_src(pat), init)
-        return [p if positive else '!' + p]
+        p = _arm_cond(canon(e['ch'][0], env), e['pat'], env)
+        return [p if positive else _neg(p)]
     c = canon(e, env)
     return [c if positive else _neg(c)]
 
 
 def _mutated_names(e):
+    """(local id, source name) of every local assigned somewhere in e"""
     from facts import walk
     out = set()
     for x in walk(e):
         if x.get('k') in ('Assign', 'AssignOp'):
             t = peel(x['ch'][0])
-            while t.get('k') == 'Field':
+            while t.get('k') in ('Field', 'Index'):
+                t = peel(t['ch'][0])
+            if t.get('k') == 'Unary':
                 t = peel(t['ch'][0])
             if t.get('k') == 'Path' and t.get('res') == 'local':
-                out.add(t['name'])
+                out.add((t['local'], t['name']))
     return out
 
 
@@ -203,18 +464,28 @@ def paths(e, env=None, conds=frozenset(), effects=()):
         for s in e.get('stmts', []):
             nxt = []
             for cs, ef, en in pending:
-                if s['k'] == 'Let' and 'init' in s:
+                if s['k'] == 'Let' and 'init' in s and s['pat'].get('k') == 'Binding' and \
+                        peel(s['init']).get('k') in ('If', 'Match', 'Block') and _has_ret(peel(s['init'])):
+                    # `let x = if c { return .. } else { e }`: control flow, not a value to inline
+                    for c2, leaf, ef2 in paths(peel(s['init']), en, cs, ef):
+                        if leaf.startswith('return ') or leaf == 'PANIC':
+                            yield c2, leaf, ef2
+                        else:
+                            en2 = dict(en)
+                            en2[s['pat']['local']] = leaf
+                            nxt.append((c2, ef2, en2))
+                elif s['k'] == 'Let' and 'init' in s:
                     en = dict(en)
                     init = peel(s['init'])
 
                     def bind(p_, v_, en=en):
                         nonlocal ef
                         c = canon(v_, en)
-                        if p_.get('mut') or len(c) > 60 or '|' in c or (re.search(r'\bself\.\w', c) and not c.endswith(')')) \
-                                or any(re.search(r'\b%s\b' % re.escape(m_), c) for m_ in en.get('__mutated__', ()) if m_ != 'self'):
-                            # mutable or effectful / long initialiser: keep the name
-                            en[p_['local']] = p_['name']
-                            ef = ef + ('%s := %s' % (p_['name'], c),)
+                        if not _inlineable(p_, c, en):
+                            # mutable or effectful / long initialiser: keep a (positional) name
+                            nm = _keep_name(en, p_['local'])
+                            en[p_['local']] = nm
+                            ef = ef + ('%s := %s' % (nm, c),)
                         else:
                             en[p_['local']] = c
                     if s['pat'].get('k') == 'Binding':
@@ -224,6 +495,28 @@ def paths(e, env=None, conds=frozenset(), effects=()):
                         for p_, v_ in zip(s['pat']['ch'], init['ch']):
                             if p_.get('k') == 'Binding':
                                 bind(p_, v_)
+                    elif s['pat'].get('k') == 'Tuple' and \
+                            all(q.get('k') in ('Binding', 'Wild') for q in s['pat']['ch']):
+                        # opaque tuple value: components by projection (of a kept name unless
+                        # the value is a plain immutable one)
+                        c = canon(init, en)
+                        if _inlineable({'mut': any(q.get('mut') for q in s['pat']['ch'])}, c, en) and \
+                                re.fullmatch(r'[\w.]+', c):
+                            nm = c
+                        else:
+                            nm = _fresh(en, 'v')
+                            ef = ef + ('%s := %s' % (nm, c),)
+                        for i_, q in enumerate(s['pat']['ch']):
+                            if q.get('k') == 'Binding':
+                                en[q['local']] = en.get('__names__', {}).get(q['local'], '%s.%d' % (nm, i_))
+                    elif s['pat'].get('k') != 'Binding':
+                        pc = pat_canon(s['pat'], en)
+                        ef = ef + ('let %s = %s' % (pc, canon(init, en)),)
+                    nxt.append((cs, ef, en))
+                elif s['k'] == 'Let':
+                    en = dict(en)
+                    for b_ in _pat_binds(s['pat']):
+                        en[b_['local']] = _keep_name(en, b_['local'])
                     nxt.append((cs, ef, en))
                 elif s['k'] in ('Semi', 'Expr'):
                     x = peel(s['e'])
@@ -237,9 +530,9 @@ def paths(e, env=None, conds=frozenset(), effects=()):
                         v = canon(x['ch'][0], en) if x.get('ch') else '()'
                         yield cs, 'return ' + v, ef
                     elif x.get('k') in ('Assign', 'AssignOp'):
-                        op = '=' if x['k'] == 'Assign' else x['op']
-                        nxt.append((cs, ef + ('%s %s %s' % (canon(x['ch'][0], en), op,
-                                                           canon(x['ch'][1], en)),), en))
+                        nxt.append((cs, ef + (_assign_str(x, en),), en))
+                    elif x.get('k') in ('For', 'While', 'Loop'):
+                        nxt.append((cs, ef + (canon(x, en),), en))
                     else:
                         nxt.append((cs, ef + (canon(x, en),) if s['k'] == 'Semi' and
                                     x.get('k') in ('MethodCall', 'Call') else ef, en))
@@ -264,13 +557,27 @@ def paths(e, env=None, conds=frozenset(), effects=()):
         else:
             yield conds | frozenset(f), '()', effects
         return
+    if k == 'Match' and _bool_match(e) is not None:
+        c_, a_, b_ = _bool_match(e)
+        yield from paths({'k': 'If', 'ch': [c_, a_, b_]}, env, conds, effects)
+        return
     if k == 'Match' and try_operand(e) is None:
+        tr = _tuple_match_rows(e, env)
+        if tr is not None:
+            for c_, a, en in tr:
+                yield from paths(a['body'], en, conds | frozenset(c_), effects)
+            return
         scr = canon(e['ch'][0], env)
+        prior = []
         for a in e['arms']:
             en = dict(env)
-            for b in _pat_binds(a['pat']):
-                en[b['local']] = b['name'] if a['pat'].get('k') != 'Binding' else scr
-            cs = conds | frozenset({'%s is %s' % (scr, pat_src(a['pat']))})
+            c_ = _arm_cond(scr, a['pat'], en)
+            if a['pat'].get('k') == 'Wild' and 'guard' not in a and prior and None not in prior:
+                # the catch-all arm is the complement of the arms before it
+                cs = conds | frozenset(_neg(p_) for p_ in prior)
+            else:
+                cs = conds | frozenset({c_})
+            prior.append(None if 'guard' in a else c_)
             if 'guard' in a:
                 cs = cs | frozenset(conj(a['guard'], en))
             yield from paths(a['body'], en, cs, effects)
@@ -280,9 +587,7 @@ def paths(e, env=None, conds=frozenset(), effects=()):
         yield conds, 'return ' + v, effects
         return
     if k in ('Assign', 'AssignOp'):
-        op = '=' if k == 'Assign' else e['op']
-        yield conds, '()', tuple(effects) + ('%s %s %s' % (canon(e['ch'][0], env), op,
-                                                          canon(e['ch'][1], env)),)
+        yield conds, '()', tuple(effects) + (_assign_str(e, env),)
         return
     if e.get('ty') == '!':
         yield conds, 'PANIC', effects
@@ -290,13 +595,503 @@ def paths(e, env=None, conds=frozenset(), effects=()):
     yield conds, canon(e, env), effects
 
 
+def _has_ret(e):
+    from facts import walk
+    return any(x.get('k') == 'Ret' for x in walk(e) if x.get('k') != 'Closure') and \
+        not any(x.get('k') == 'Closure' and any(y.get('k') == 'Ret' for y in walk(x)) for x in [])
+
+
+def _contains(e, node):
+    from facts import walk
+    return e is node or any(x is node for x in walk(e))
+
+
+def env_at(root, node, env=None):
+    """Naming environment in force at `node` inside `root`: the lets, pattern binds and
+    closure parameters on the way down are bound exactly as `paths` / `canon` bind them, so a
+    table computed for an inner closure body names captured locals consistently (positional
+    v-names for kept lets)."""
+    env = dict(env or {})
+    if '__mutated__' not in env:
+        env['__mutated__'] = _mutated_names(root)
+
+    def bind_let(pat, init):
+        init = peel(init)
+        if pat.get('k') == 'Binding' and init.get('k') in ('If', 'Match', 'Block') and _has_ret(init):
+            lv = {l for c_, l, e_ in paths(init, env) if not l.startswith('return ') and l != 'PANIC'}
+            env[pat['local']] = lv.pop() if len(lv) == 1 else _keep_name(env, pat['local'])
+        elif pat.get('k') == 'Binding':
+            c = canon(init, env)
+            if not _inlineable(pat, c, env):
+                env[pat['local']] = _keep_name(env, pat['local'])
+            else:
+                env[pat['local']] = c
+        elif pat.get('k') == 'Tuple' and init.get('k') == 'Tup' and len(init['ch']) == len(pat['ch']):
+            for p_, v_ in zip(pat['ch'], init['ch']):
+                bind_let(p_, v_)
+        elif pat.get('k') == 'Tuple' and all(q.get('k') in ('Binding', 'Wild') for q in pat['ch']):
+            c = canon(init, env)
+            if _inlineable({'mut': any(q.get('mut') for q in pat['ch'])}, c, env) and re.fullmatch(r'[\w.]+', c):
+                nm = c
+            else:
+                nm = _fresh(env, 'v')
+            for i_, q in enumerate(pat['ch']):
+                if q.get('k') == 'Binding':
+                    env[q['local']] = env.get('__names__', {}).get(q['local'], '%s.%d' % (nm, i_))
+        else:
+            pat_canon(pat, env)
+
+    def rec(e):
+        e = peel(e)
+        if e is node:
+            return True
+        k = e.get('k')
+        if k == 'Block':
+            for s_ in e.get('stmts', []):
+                x = s_.get('init') if s_['k'] == 'Let' else s_.get('e')
+                if x is not None and _contains(x, node):
+                    return rec(x)
+                if s_['k'] == 'Let' and 'init' in s_:
+                    bind_let(s_['pat'], s_['init'])
+                elif s_['k'] == 'Let':
+                    for b_ in _pat_binds(s_['pat']):
+                        env[b_['local']] = _keep_name(env, b_['local'])
+            if 'expr' in e and _contains(e['expr'], node):
+                return rec(e['expr'])
+            return False
+        if k == 'If':
+            c = e['ch']
+            if _contains(c[0], node):
+                return rec(c[0])
+            if _contains(c[1], node):
+                conj(c[0], env)
+                return rec(c[1])
+            if len(c) > 2 and _contains(c[2], node):
+                return rec(c[2])
+            return False
+        if k == 'Match' and try_operand(e) is None:
+            if _contains(e['ch'][0], node):
+                return rec(e['ch'][0])
+            scr = canon(e['ch'][0], env)
+            for a in e['arms']:
+                if _contains(a['body'], node) or ('guard' in a and _contains(a['guard'], node)):
+                    _arm_cond(scr, a['pat'], env)
+                    return rec(a['body'])
+            return False
+        if k == 'Closure':
+            d = env.get('__cdepth__', 0)
+            env['__cdepth__'] = d + 1
+            i = 0
+            for p in e.get('params', []):
+                for b in _pat_binds(p):
+                    env[b['local']] = '%s%d' % ('abcdefgh'[min(d, 7)], i)
+                    i += 1
+            return rec(e['ch'][0])
+        if k == 'For':
+            if _contains(e['ch'][0], node):
+                return rec(e['ch'][0])
+            pat_canon(e['pat'], env)
+            return rec(e['ch'][1])
+        for c in children(e):
+            if _contains(c, node):
+                return rec(c)
+        return False
+    rec(root)
+    return env
+
+
+def _diverges(e):
+    """block / expression that never completes normally (return, break, continue, panic)"""
+    e = peel(e)
+    if e.get('ty') == '!':
+        return True
+    if e.get('k') in ('Ret', 'Break', 'Continue'):
+        return True
+    if e.get('k') == 'Block':
+        for s_ in e.get('stmts', []):
+            x = s_.get('e')
+            if x is not None and _diverges(x):
+                return True
+        return 'expr' in e and _diverges(e['expr'])
+    return False
+
+
+def guards_at(root, node, env=None):
+    """(conditions, env): the conjunction under which control reaches `node` inside `root`
+    (branch conditions on the way down plus the negations of earlier diverging `if`s), in the
+    canonical predicate strings of this module; None if node is not found."""
+    env = dict(env or {})
+    if '__mutated__' not in env:
+        env['__mutated__'] = _mutated_names(root)
+    conds = []
+
+    def rec(e, en):
+        e = peel(e)
+        if e is node:
+            return en
+        k = e.get('k')
+        if k == 'Block':
+            en = dict(en)
+            for s_ in e.get('stmts', []):
+                x = s_.get('init') if s_['k'] == 'Let' else s_.get('e')
+                if x is not None and _contains(x, node):
+                    return rec(x, en)
+                if s_['k'] == 'Let':
+                    sub = env_at({'k': 'Block', 'stmts': [s_], 'expr': {'k': 'Lit', 'v': '0', '__probe__': 1}},
+                                 None, en)
+                    en = sub
+                elif x is not None:
+                    y = peel(x)
+                    if y.get('k') == 'If' and len(y['ch']) == 2 and _diverges(y['ch'][1]):
+                        conds.extend(conj(y['ch'][0], dict(en), False))
+                    elif y.get('k') == 'If' and len(y['ch']) == 3 and _diverges(y['ch'][1]) and \
+                            not _diverges(y['ch'][2]):
+                        conds.extend(conj(y['ch'][0], dict(en), False))
+                    elif y.get('k') == 'If' and len(y['ch']) == 3 and _diverges(y['ch'][2]) and \
+                            not _diverges(y['ch'][1]):
+                        conds.extend(conj(y['ch'][0], dict(en)))
+            if 'expr' in e and _contains(e['expr'], node):
+                return rec(e['expr'], en)
+            return None
+        if k == 'If':
+            c = e['ch']
+            if _contains(c[0], node):
+                return rec(c[0], en)
+            if _contains(c[1], node):
+                en = dict(en)
+                conds.extend(conj(c[0], en))
+                return rec(c[1], en)
+            if len(c) > 2 and _contains(c[2], node):
+                conds.extend(conj(c[0], dict(en), False))
+                return rec(c[2], en)
+            return None
+        if k == 'Match' and try_operand(e) is None:
+            if _contains(e['ch'][0], node):
+                return rec(e['ch'][0], en)
+            scr = canon(e['ch'][0], en)
+            prior = []
+            for a in e['arms']:
+                en2 = dict(en)
+                c_ = _arm_cond(scr, a['pat'], en2)
+                if _contains(a['body'], node) or ('guard' in a and _contains(a['guard'], node)):
+                    if a['pat'].get('k') == 'Wild' and prior and None not in prior:
+                        conds.extend(_neg(p_) for p_ in prior)
+                    else:
+                        conds.append(c_)
+                    if 'guard' in a and _contains(a['body'], node):
+                        conds.extend(conj(a['guard'], en2))
+                    return rec(a['body'], en2)
+                prior.append(None if 'guard' in a else c_)
+            return None
+        if k == 'Closure':
+            en = dict(en)
+            d = en.get('__cdepth__', 0)
+            en['__cdepth__'] = d + 1
+            i = 0
+            for p in e.get('params', []):
+                for b in _pat_binds(p):
+                    en[b['local']] = '%s%d' % ('abcdefgh'[min(d, 7)], i)
+                    i += 1
+            return rec(e['ch'][0], en)
+        if k == 'For':
+            if _contains(e['ch'][0], node):
+                return rec(e['ch'][0], en)
+            en = dict(en)
+            pat_canon(e['pat'], en)
+            return rec(e['ch'][1], en)
+        for c in children(e):
+            if _contains(c, node):
+                return rec(c, en)
+        return None
+    en = rec(root, env)
+    if en is None:
+        return None
+    return conds, en
+
+
+def closure_table(root, closure, env=None):
+    """Decision table of a closure body, its parameters named a0, a1 .. and the locals it
+    captures named as at its definition site."""
+    en = env_at(root, closure['ch'][0], env)
+    return table(closure['ch'][0], en)
+
+
+_VNAME = re.compile(r'\bv\d+\b')
+_IDENT = re.compile(r'[A-Za-z_]\w*')
+
+
+def _toks(t):
+    out = set()
+    for cs, leaf, ef in t:
+        for x in list(cs) + [leaf] + list(ef):
+            out.update(_IDENT.findall(x))
+    return out
+
+
+_COMM = (' + ', ' * ', ' == ', ' != ')
+
+
+def _resort(s):
+    """re-sort the operands of commutative binary operators in a canonical string (their
+    order depends on the names, which a renaming changes)"""
+    out = []
+    i = 0
+    n = len(s)
+    while i < n:
+        ch = s[i]
+        if ch != '(':
+            out.append(ch)
+            i += 1
+            continue
+        d = 0
+        j = i
+        while j < n:
+            if s[j] in '([{':
+                d += 1
+            elif s[j] in ')]}':
+                d -= 1
+                if d == 0:
+                    break
+            j += 1
+        if j >= n:
+            out.append(s[i:])
+            break
+        inner = _resort(s[i + 1:j])
+        # top-level split
+        d = 0
+        cut = None
+        simple = True
+        k = 0
+        while k < len(inner):
+            c = inner[k]
+            if c in '([{':
+                d += 1
+            elif c in ')]}':
+                d -= 1
+            elif d == 0:
+                if c == ',' or c == ';':
+                    simple = False
+                    break
+                if c == ' ':
+                    for op in _COMM:
+                        if inner.startswith(op, k):
+                            if cut is not None:
+                                simple = False
+                            cut = (k, op)
+                    m_ = re.match(r' (-|/|%|<|<=|&&|\|\||&|\||is|=>|=|:=) ', inner[k:])
+                    if m_:
+                        simple = False
+            k += 1
+        if simple and cut is not None:
+            a_, b_ = inner[:cut[0]], inner[cut[0] + len(cut[1]):]
+            if b_ < a_:
+                a_, b_ = b_, a_
+            inner = a_ + cut[1] + b_
+        out.append('(' + inner + ')')
+        i = j + 1
+    return ''.join(out)
+
+
+def _resort_table(t):
+    return {(frozenset(_resort(c) for c in cs), _resort(l), tuple(_resort(e) for e in ef)) for cs, l, ef in t}
+
+
+def equiv(a, b):
+    """Equality of two tables up to an injective renaming of the positional names (v0, v1 ..)
+    of kept lets: local variable names carry no meaning."""
+    a, b = set(a), set(b)
+    if a == b:
+        return True
+    if len(a) != len(b):
+        return False
+    a, b = _resort_table(a), _resort_table(b)
+    if a == b:
+        return True
+    ta, tb = _toks(a), _toks(b)
+    va = sorted(x for x in ta if _VNAME.fullmatch(x))
+    vb = sorted(x for x in tb if _VNAME.fullmatch(x))
+    if va and not vb:
+        src_t, dst_t, A = a, b, va
+        B = sorted(tb - (ta - set(va)))
+    elif vb and not va:
+        src_t, dst_t, A = b, a, vb
+        B = sorted(ta - (tb - set(vb)))
+    elif va and vb:
+        src_t, dst_t, A, B = a, b, va, vb
+    else:
+        return False
+    if len(A) > len(B) or len(A) > 9:
+        return False
+    import itertools
+
+    def sigs(t, names):
+        rx_all = re.compile(r'\b(%s)\b' % '|'.join(re.escape(n) for n in names))
+        out = {}
+        for nm in names:
+            items = []
+            for cs, leaf, ef in t:
+                for kind, x in [('c', c) for c in cs] + [('l', leaf)] + [('e', e) for e in ef]:
+                    if re.search(r'\b%s\b' % re.escape(nm), x):
+                        items.append((kind, _resort(rx_all.sub(lambda mo: '@' if mo.group(1) == nm else '#', x))))
+            out[nm] = tuple(sorted(items))
+        return out
+    sa, sb = sigs(src_t, A), sigs(dst_t, B)
+    cands = [[b_ for b_ in B if sb[b_] == sa[a_]] for a_ in A]
+    if any(not c for c in cands):
+        return False
+    n_try = 0
+    rx = re.compile(r'\b(%s)\b' % '|'.join(A))
+    for perm in itertools.product(*cands):
+        if len(set(perm)) != len(perm):
+            continue
+        n_try += 1
+        if n_try > 5000:
+            return False
+        m = dict(zip(A, perm))
+
+        def f(x):
+            return rx.sub(lambda mo: m[mo.group(1)], x)
+        if _resort_table({(frozenset(f(c) for c in cs), f(l), tuple(f(e) for e in ef))
+                          for cs, l, ef in src_t}) == dst_t:
+            return True
+    return False
+
+
+_REL = re.compile(r'\((.+) (<=|<|==|!=) (.+)\)')
+
+
+def _split_rel(c):
+    """(lhs, op, rhs) of a canonical comparison with balanced sides, else None"""
+    if not (c.startswith('(') and c.endswith(')')):
+        return None
+    inner = c[1:-1]
+    d = 0
+    for i, ch in enumerate(inner):
+        if ch in '([{':
+            d += 1
+        elif ch in ')]}':
+            d -= 1
+        elif ch == ' ' and d == 0:
+            for op in (' <= ', ' < ', ' == ', ' != '):
+                if inner.startswith(op, i):
+                    a, b = inner[:i], inner[i + len(op):]
+                    if _balanced(a) and _balanced(b) and not re.search(r' (&&|\|\|) ', _strip_groups(a) + _strip_groups(b)):
+                        return a, op.strip(), b
+                    return None
+    return None
+
+
+def _strip_groups(x):
+    out = []
+    d = 0
+    for ch in x:
+        if ch in '([{':
+            d += 1
+        elif ch in ')]}':
+            d -= 1
+        elif d == 0:
+            out.append(ch)
+    return ''.join(out)
+
+
+def simplify(cs):
+    """Normal form of a conjunction: comparisons of the same two terms are merged into the one
+    relation they allow (trichotomy), `p` with `!p` (or an empty relation) makes the path
+    infeasible (None)."""
+    rel = {}
+    rest = set()
+    for c in cs:
+        r = _split_rel(c)
+        if r is None:
+            rest.add(c)
+            continue
+        a, op, b = r
+        allowed = {'<': {'<'}, '<=': {'<', '='}, '==': {'='}, '!=': {'<', '>'}}[op]
+        if b < a:
+            a, b = b, a
+            allowed = {{'<': '>', '>': '<', '=': '='}[x] for x in allowed}
+        rel[(a, b)] = rel.get((a, b), {'<', '=', '>'}) & allowed
+    for c in rest:
+        if ('!' + c) in rest:
+            return None
+    out = set(rest)
+    for (a, b), al in rel.items():
+        if not al:
+            return None
+        al = frozenset(al)
+        if al == {'<'}:
+            out.add('(%s < %s)' % (a, b))
+        elif al == {'='}:
+            out.add('(%s == %s)' % (a, b))
+        elif al == {'>'}:
+            out.add('(%s < %s)' % (b, a))
+        elif al == {'<', '='}:
+            out.add('(%s <= %s)' % (a, b))
+        elif al == {'=', '>'}:
+            out.add('(%s <= %s)' % (b, a))
+        elif al == {'<', '>'}:
+            out.add('(%s != %s)' % (a, b))
+    return frozenset(out)
+
+
+def holds(cond, binding):
+    """Truth of a canonical condition at a sample point.  `binding` maps canonical sub-strings
+    (terms or whole predicates) to python ints / bools; None when something else remains."""
+    x = cond
+    for k_ in sorted(binding, key=len, reverse=True):
+        x = x.replace(k_, ' %s ' % repr(binding[k_]))
+    x = x.replace('&&', ' and ').replace('||', ' or ')
+    x = re.sub(r'!(?!=)', ' not ', x)
+    if not re.fullmatch(r'[\s0-9()<>=!+\-*]*((True|False|and|or|not)[\s0-9()<>=!+\-*]*)*', x):
+        return None
+    try:
+        return bool(eval(x, {'__builtins__': {}}, {}))
+    except Exception:
+        return None
+
+
+class Table(set):
+    """decision table; `==` is equality up to renaming of kept local names (see equiv)"""
+    __hash__ = None
+
+    def __eq__(self, other):
+        return equiv(self, other) if isinstance(other, (set, frozenset)) else NotImplemented
+
+    def __ne__(self, other):
+        r = self.__eq__(other)
+        return r if r is NotImplemented else not r
+
+
+def _drop_dead(cs, leaf, ef):
+    """remove `v := <pure expr>` definitions of kept lets that nothing on the path reads"""
+    ef = list(ef)
+    changed = True
+    while changed:
+        changed = False
+        for i, e in enumerate(ef):
+            m = re.match(r'(v\d+) := (.*)$', e)
+            if not m or _EFFECTFUL.search(m.group(2)):
+                continue
+            rx = re.compile(r'\b%s\b' % m.group(1))
+            if rx.search(leaf) or any(rx.search(c) for c in cs) or \
+                    any(rx.search(x) for j, x in enumerate(ef) if j != i):
+                continue
+            del ef[i]
+            changed = True
+            break
+    return tuple(ef)
+
+
 def table(e, env=None):
     """Set of (conds, leaf, effects) with returns unwrapped."""
-    out = set()
+    out = Table()
     for cs, leaf, ef in paths(e, env):
         if leaf.startswith('return '):
             leaf = leaf[7:]
-        out.add((cs, leaf, tuple(ef)))
+        cs = simplify(cs)
+        if cs is None:
+            continue        # infeasible path
+        out.add((cs, leaf, _drop_dead(cs, leaf, tuple(ef))))
     return out
 
 
